@@ -16,19 +16,19 @@ GEN_RULE = ("cases = (container kind, thread_safe mode, key/value types, capacit
             "drawn by a rapidcheck Gen<Case> (16 workers, seeds derived from VERIF_SEED); distinct = 64-bit hash of the canonical case text; ")
 
 PROPS = {
-    "C01": dict(mode="model", profile="general", **tiers(1500, 60, 40000, 120, t_fuzz_s=90),
+    "C01": dict(mode="model", profile="general", **tiers(8000, 60, 60000, 120, t_fuzz_s=90),
                 rule=GEN_RULE + "non-trivial = at least one slot recycle (a new key inserted after an erase or eviction) followed by at least one checked hit",
                 needs=["slot_recycles", "checked_hits_after_recycle"]),
-    "C02": dict(mode="model", profile="general", **tiers(1500, 60, 40000, 120, t_fuzz_s=90),
+    "C02": dict(mode="model", profile="general", **tiers(8000, 60, 60000, 120, t_fuzz_s=90),
                 rule=GEN_RULE + "non-trivial = the size() trajectory is non-monotone (a decrease by erase/evict/expiry/clear followed by an increase)",
                 needs=["size_dec_then_inc", "steps_at_capacity"]),
-    "C03": dict(mode="model", profile="general", **tiers(1500, 60, 40000, 120, t_fuzz_s=90),
+    "C03": dict(mode="model", profile="general", **tiers(8000, 60, 60000, 120, t_fuzz_s=90),
                 rule=GEN_RULE + "non-trivial = at least one insert of a new key at size()==capacity() and at least one insert into a slot freed by an erase on a previously full cache (ut_map/ut_set: any insert after a removal)",
                 needs=["inserts_into_full", "inserts_into_free_slot_after_erase_on_full"]),
-    "C04": dict(mode="model", profile="ttl", **tiers(1500, 60, 40000, 120),
+    "C04": dict(mode="model", profile="ttl", **tiers(8000, 60, 60000, 120),
                 rule=GEN_RULE + "non-trivial = at least one lookup of a key whose entry has expired and has not been observably removed",
                 needs=["zombie_probes", "zombie_probes_at_exact_deadline"]),
-    "C05": dict(mode="model", profile="ttl", **tiers(1500, 60, 40000, 120),
+    "C05": dict(mode="model", profile="ttl", **tiers(8000, 60, 60000, 120),
                 rule=GEN_RULE + "non-trivial = at least one hit within 1 ms before the deadline and at least one write that moved an existing deadline",
                 needs=["hits_within_1ms_of_deadline", "writes_moving_a_deadline"]),
     "C06": dict(mode="sched", profile="all", engine_bin="sched",
@@ -51,51 +51,51 @@ PROPS = {
                      "non-trivial = both threads finished, their execution windows overlapped in wall-clock time and at least one call took a hit path",
                 assumptions=["ThreadSanitizer sees only instrumented code: accesses inside libstdc++.so (list splice, rb-tree rebalance) are invisible, header code (hash lookup, element fields, counters) is visible",
                              "the OS scheduler decides the interleaving; detection is happens-before based and does not need the accesses to overlap in time"]),
-    "C08": dict(mode="model", profile="general", **tiers(3000, 100, 30000, 200, q_fuzz_s=20, t_fuzz_s=240),
+    "C08": dict(mode="model", profile="general", **tiers(5000, 100, 40000, 200, q_fuzz_s=20, t_fuzz_s=240),
                 rule=GEN_RULE + "plus libFuzzer byte strings decoded to cases (16 jobs, one container kind each); the monitor is ASan + UBSan + libstdc++ checked iterators + "
                 "the Tracked value type (self pointer, magic, owned heap block, live-instance counter that must return to its baseline when the container is destroyed); "
                 "non-trivial = at least two slot recycles (removal -> creation) in the history",
                 needs=["slot_recycles"],
                 assumptions=["uninitialised reads are not monitored (no MSan-instrumented libstdc++ in this image)"]),
-    "C09": dict(mode="model", profile="general", **tiers(1500, 60, 40000, 120, t_fuzz_s=90),
+    "C09": dict(mode="model", profile="general", **tiers(8000, 60, 60000, 120, t_fuzz_s=90),
                 rule=GEN_RULE + "non-trivial = at least one rejected and one accepted insert whose key had a prior history (erased, evicted or expired)",
                 needs=["rejected_with_prior_history", "accepted_with_prior_history"]),
-    "C10": dict(mode="model", profile="recency", kinds=["lru", "tlru", "utlru"], **tiers(2000, 60, 40000, 120),
+    "C10": dict(mode="model", profile="recency", kinds=["lru", "tlru", "utlru"], **tiers(8000, 60, 60000, 120),
                 rule=GEN_RULE + "non-trivial = at least one eviction whose victim is not the earliest-inserted resident (LRU distinguishable from FIFO)",
                 needs=["evict_victim_not_oldest_inserted"]),
-    "C11": dict(mode="model", profile="lfu", **tiers(2000, 60, 40000, 120),
+    "C11": dict(mode="model", profile="lfu", **tiers(8000, 60, 60000, 120),
                 rule=GEN_RULE + "non-trivial = at least one eviction while the residents' use counts are not all equal",
                 needs=["evict_with_nonuniform_counts"]),
-    "C12": dict(mode="model", profile="fifo", **tiers(2000, 60, 40000, 120),
+    "C12": dict(mode="model", profile="fifo", **tiers(8000, 60, 60000, 120),
                 rule=GEN_RULE + "non-trivial = an eviction after an erase of a non-oldest entry and a refill, or after the oldest entry was updated / looked up",
                 needs=["fifo_evict_after_mid_erase_refill", "fifo_evict_after_oldest_touched"]),
-    "C13": dict(mode="model", profile="recency", kinds=["mru"], **tiers(2000, 60, 40000, 120),
+    "C13": dict(mode="model", profile="recency", kinds=["mru"], **tiers(8000, 60, 60000, 120),
                 rule=GEN_RULE + "non-trivial = at least one eviction whose victim is not the most recently inserted resident",
                 needs=["evict_victim_not_newest_inserted"]),
-    "C14": dict(mode="model", profile="lfuda", **tiers(2000, 60, 40000, 120),
+    "C14": dict(mode="model", profile="lfuda", **tiers(8000, 60, 60000, 120),
                 rule=GEN_RULE + "non-trivial = an aging point at which some but not all residents are idle and an entry older by insertion than an idle one was used more recently",
                 needs=["aging_points_mixed_older_entry_fresher"]),
     "C15": dict(mode="model", profile="rr", profiles=[("rr", None, "model", 1.0)] * 3 + [("rrstats", None, "stats-rr", 0.02)],
-                **tiers(2000, 60, 40000, 120),
+                **tiers(8000, 60, 60000, 120),
                 rule=GEN_RULE + "non-trivial = (model mode) at least two evictions and at least one erase of a live key in the same history; "
                 "(stats-rr mode, 1 worker in 4) a run of 400*capacity evicting inserts with at least one interleaved erase+refill, victim-rank histogram checked",
                 needs=["evictions"]),
-    "C16": dict(mode="model", profile="ttlfull", **tiers(2000, 60, 40000, 120),
+    "C16": dict(mode="model", profile="ttlfull", **tiers(8000, 60, 60000, 120),
                 rule=GEN_RULE + "non-trivial = an insert of a new key into a full tlru/utlru cache holding at least one live and at least one expired resident",
                 needs=["inserts_into_full_with_expired_and_live"]),
-    "C18": dict(mode="twin-range", profile="range", **tiers(1500, 60, 40000, 120),
+    "C18": dict(mode="twin-range", profile="range", **tiers(8000, 60, 60000, 120),
                 rule=GEN_RULE + "every range call is executed as one call on instance A and as the element-wise single calls on instance B at a frozen clock; "
                 "non-trivial = a range with a duplicate key, or mixed successes and failures, or more new keys than free slots",
                 needs=["twin_range_with_duplicate", "twin_range_mixed_success", "range_insert_with_eviction"]),
-    "C19": dict(mode="twin-noop", profile="noop", **tiers(1500, 60, 40000, 120),
+    "C19": dict(mode="twin-noop", profile="noop", **tiers(8000, 60, 60000, 120),
                 rule=GEN_RULE + "instance B additionally executes generated no-effect calls (peek lookups, missing lookups, rejected inserts, erases of absent keys; decided by the model at run time); "
                 "non-trivial = at least one spliced call followed by at least one eviction or aging point",
                 needs=["splices_executed", "evictions_after_splice"]),
-    "C20": dict(mode="twin-clear", profile="clear", **tiers(1500, 60, 40000, 120),
+    "C20": dict(mode="twin-clear", profile="clear", **tiers(8000, 60, 60000, 120),
                 rule=GEN_RULE + "instance B is constructed fresh (same capacity, currently configured TTL) at the last clear() of the history and both run the continuation; "
                 "non-trivial = clear() on a non-empty container and a continuation with at least one eviction (utlru) or expiry",
                 needs=["twin_created_after_clear", "evictions_after_clear"]),
-    "C17": dict(mode="model", profile="clean", **tiers(2000, 60, 40000, 120),
+    "C17": dict(mode="model", profile="clean", **tiers(8000, 60, 60000, 120),
                 rule=GEN_RULE + "non-trivial = clean_expired_values() called with at least one live and at least one expired resident",
                 needs=["clean_with_live_and_expired"]),
 }
